@@ -699,6 +699,56 @@ pub fn run_enumerated(ctx: &mut Ctx, bases: &[Base], weight: &dyn Fn(FieldKind) 
         }
     }
     ctx.extra.insert("spec_alternative_cases".into(), serde_json::json!(idx));
+    // ---- the sample-offset arithmetic at the top of the 64-bit range: a constant-size track in one
+    // chunk whose 64-bit chunk offset, samples-per-chunk, sample count and sample size are raised
+    // together so that offset + index x size overflows by a small or a large margin. Each lookup
+    // must fail (or succeed) in constant time; the driver asks for ids around the count, 2^31 and 2^32-1.
+    ctx.stage("offset-overflow");
+    let mut idx = 0u64;
+    {
+        let mut runner = crate::gen::fixed_runner(21);
+        let mut t = crate::gen::draw(&crate::gen::table_track(1, 6), &mut runner);
+        // (a draw with at least one sample)
+        for _ in 0..8 {
+            if !t.samples.is_empty() {
+                break;
+            }
+            t = crate::gen::draw(&crate::gen::table_track(1, 6), &mut runner);
+        }
+        for s in t.samples.iter_mut() {
+            s.size = 16;
+        }
+        t.chunks = vec![t.samples.len() as u32];
+        t.stsc_breaks = vec![false];
+        t.co64 = true;
+        t.fixed_stsz = true;
+        if !t.samples.is_empty() {
+            let base = crate::refmp4::movie::build(&crate::gen::movie_shell(vec![t])).bytes;
+            let find = |cc4: &[u8; 4]| base.windows(4).position(|w| w == cc4);
+            if let (Some(pz), Some(pc), Some(po)) = (find(b"stsz"), find(b"stsc"), find(b"co64")) {
+                for size in [1u32, 2, 16, 4096, 1 << 20] {
+                    for spc in [1u32 << 31, (1 << 31) + 7, u32::MAX] {
+                        for count in [(1u32 << 31) + 5, u32::MAX] {
+                            for off in [u64::MAX - (size as u64) * (1u64 << 32) + 2, u64::MAX - (size as u64) * (1u64 << 31), 0xffff_ffff_0000_0002, u64::MAX - 15, 1u64 << 63] {
+                                let my = idx;
+                                idx += 1;
+                                if !ctx.enter(my) {
+                                    continue;
+                                }
+                                let mut bytes = base.clone();
+                                bytes[pz + 8..pz + 12].copy_from_slice(&size.to_be_bytes());
+                                bytes[pz + 12..pz + 16].copy_from_slice(&count.to_be_bytes());
+                                bytes[pc + 16..pc + 20].copy_from_slice(&spc.to_be_bytes());
+                                bytes[po + 12..po + 20].copy_from_slice(&off.to_be_bytes());
+                                each(ctx, &AdvCase { bytes, desc: format!("constant-size track: sample_size {}, sample_count {}, samples_per_chunk {}, 64-bit chunk offset {:#x}", size, count, spc, off), touched: vec![FieldKind::Offset, FieldKind::Count, FieldKind::Length], base: 0, baseline: None });
+                            }
+                        }
+                    }
+                }
+            }
+        }
+    }
+    ctx.extra.insert("offset_overflow_cases".into(), serde_json::json!(idx));
     // ---- oversize-child chains (super-linear work): r sibling copies of a container, cut right after
     // the header of its last child, whose size is stretched over all later copies up to the shared
     // original payload of that child. The size guards reject the first copy; a weakened guard lets
